@@ -20,7 +20,7 @@ func main() {
 		p    avlh.Params
 	}
 	cfgs := []cfg{
-		{"distinct", avlh.Params{U: ev.Pick(r, 7, 11), N: ev.Pick(r, 7, 11), Distinct: true, Balance: true}},
+		{"distinct", avlh.Params{U: ev.Pick(r, 9, 12), N: ev.Pick(r, 9, 12), Distinct: true, Balance: true}},
 		{"dups", avlh.Params{U: 3, N: ev.Pick(r, 6, 8), Balance: true}},
 	}
 	states, trans, depth := 0, 0, 0
